@@ -516,9 +516,35 @@ def gen_valid_deck(rng, features=None):
         lat_u, elem_u = next_u, next_u + 1
         next_u += 2
         ndim = rng.choice([1, 2, 2, 3])
+        hexa = ndim >= 2 and rng.random() < 0.3
         planes = []
         base = (max(s['id'] for s in deck['surfs']) // 10 + 1) * 10
-        for axis in range(ndim):
+        if hexa:
+            # hexagonal prism: three pairs of side planes 60 degrees apart,
+            # optionally two axial planes
+            half = 1.0 + rng.randrange(0, 4) / 8.0
+            c60, s60 = 0.5, 0.8660254037844386
+            normals = [(1.0, 0.0), (c60, s60), (-c60, s60)]
+            k = 0
+            for nx, ny in normals:
+                for sign in (1, -1):
+                    k += 1
+                    if ny == 0.0:
+                        surf = {'id': base + k, 'tr': None, 'mn': 'px',
+                                'params': [sign * half]}
+                    else:
+                        surf = {'id': base + k, 'tr': None, 'mn': 'p',
+                                'params': [nx, ny, 0.0, sign * half]}
+                    deck['surfs'].append(surf)
+                    planes.append([-surf['id'] if sign == 1 else surf['id'], None])
+            if ndim == 3:
+                for sign in (1, -1):
+                    k += 1
+                    surf = {'id': base + k, 'tr': None, 'mn': 'pz',
+                            'params': [sign * 2.5]}
+                    deck['surfs'].append(surf)
+                    planes.append([-surf['id'] if sign == 1 else surf['id'], None])
+        for axis in range(0 if hexa else ndim):
             lo = -0.5 - axis - rng.randrange(0, 4) / 8.0
             hi = 0.5 + axis + rng.randrange(0, 4) / 8.0
             mn = ['px', 'py', 'pz'][axis]
@@ -529,7 +555,8 @@ def gen_valid_deck(rng, features=None):
         ranges = []
         for axis in range(ndim):
             lo = rng.choice([-1, 0, 0])
-            ranges.append((lo, lo + rng.choice([1, 2])))
+            # one-point ranges among the leading ones are legal
+            ranges.append((lo, lo + rng.choice([0, 1, 1, 2])))
         # trailing trivial ranges are what MCNP users write for 1-D/2-D lattices
         written = list(ranges)
         while len(written) < 3 and rng.random() < 0.5:
@@ -541,7 +568,7 @@ def gen_valid_deck(rng, features=None):
         host = new_cell(lits_of(rng.randint(1, 2), False))
         host['opts'] = f'fill={lat_u}'
         if 'latopt' in features:
-            latcell['opts'] = f'u={lat_u} lat=1 fill={elem_u}'
+            latcell['opts'] = f'u={lat_u} lat={2 if hexa else 1} fill={elem_u}'
             deck['latopts'].append(f'{latcell["id"]},' + ','.join(
                 f'{lo}:{hi}' for lo, hi in written))
         else:
@@ -549,7 +576,7 @@ def gen_valid_deck(rng, features=None):
             if rng.random() < 0.3 and size > 2:
                 # nR abbreviation
                 array = [str(elem_u), f'{size - 1}r']
-            latcell['opts'] = (f'u={lat_u} lat=1 fill='
+            latcell['opts'] = (f'u={lat_u} lat={2 if hexa else 1} fill='
                                + ' '.join(f'{lo}:{hi}' for lo, hi in written)
                                + ' ' + ' '.join(str(u) for u in array))
         latcell['ranges'] = written
